@@ -693,14 +693,18 @@ def chk_prox_point(f, x, s):
     except _SKIP:
         return None, 'no proximal / value'
     if not np.isfinite(fp):
-        # projections land on the boundary of the set up to rounding (C07 finding indicator-l1-ball-rounding-outside)
+        # projections land on the boundary of the set up to rounding (C07 finding indicator-l1-ball-rounding-outside):
+        # move the point inside by 1e-9 and continue with that point
         try:
-            fp2 = float(f(p * (1 - 1e-9)))
+            p2 = p * (1 - 1e-9)
+            fp2 = float(f(p2))
         except Exception:  # noqa
             fp2 = fp
         if not np.isfinite(fp2):
+            if 'IndicatorZero' in repr(f):
+                return None, 'f(prox) = inf: exact-zero test of IndicatorZero after rounded arithmetic'
             return False, 'f(prox) = %r' % fp
-        fp = fp2
+        p, fp = p2, fp2
 
     def obj(z):
         return float(f(z)) + float((z - x).inner(z - x)) / (2.0 * s)
@@ -750,6 +754,12 @@ def run_check(name, f, x, y, s):
     """-> (ok, detail); an unexpected exception counts as a failure of the property."""
     try:
         ok, detail = CHECKS[name](f, x, y, s)
+    except ValueError as e:
+        # the library refuses conjugates / proximals of negatively LEFT-scaled functionals (a reflection `f * s`,
+        # s < 0, of a functional flagged linear builds one): nothing to evaluate
+        if 'nonpositive values' in str(e) or 'scaled with a negative value' in str(e):
+            return True, 'library refuses: ' + str(e)[:80]
+        return False, 'raised ValueError: %s' % str(e)[:200]
     except Exception as e:  # noqa
         return False, 'raised %s: %s' % (type(e).__name__, str(e)[:200])
     return (True if ok is None else ok), detail
